@@ -1,1 +1,17 @@
-fn main() {}
+mod c06;
+mod c15;
+mod files;
+mod opts;
+mod probe;
+fn main() {
+    let ctx = vcore::Ctx::from_args();
+    match ctx.prop.as_str() {
+        "C06" => c06::run(&ctx),
+        "C15" => c15::run(&ctx),
+        "PROBE" => probe::run(),
+        other => {
+            eprintln!("MACHINERY: vk-pqread does not serve property {other:?}");
+            std::process::exit(2)
+        }
+    }
+}
